@@ -100,6 +100,7 @@ def expand(combo, count_obs):
         out.append(_base(combo, {'crash': {'k': k, 'tear': None}}))
         if k < n:
             out.append(_base(combo, {'crash': {'k': k, 'tear': None, 'when': 'after'}}))
+            out.append(_base(combo, {'crash': {'k': k, 'tear': None, 'when': 'interrupt'}}))
         if combo['forced']:
             out.append(_base(combo, {'crash': {'k': k, 'tear': None}}, post='delete'))
             out.append(_base(combo, {'crash': {'k': k, 'tear': None}}, post='reforce'))
